@@ -654,7 +654,7 @@ fn gen_statement(r: &mut Rng, ccy: &str, scale: u32, opening: i128, b: &Bias, co
     let mut consistent = true;
     // the entries start a few days before a calendar boundary drawn on purpose (caldate.rs: New
     // Year incl. the days whose ISO week belongs to the other year, leap day, month end, 1900 / 2100)
-    // and run across it; value dates lie up to two days before the booking date
+    // and run across it; value dates lie up to two days before or after the booking date
     let start = crate::caldate::gen_anchor(r, crate::caldate::YEAR_LO, crate::caldate::YEAR_HI, 8, 40);
     let start = start.max(crate::caldate::ymd(crate::caldate::YEAR_LO, 1, 3));
     let mut day = 0i64;
@@ -669,7 +669,8 @@ fn gen_statement(r: &mut Rng, ccy: &str, scale: u32, opening: i128, b: &Bias, co
         let value = match r.below(5) {
             0 => None,
             1 | 2 => Some(XDate { dttm: None, ..booking.clone() }),
-            _ => Some(gen_date(r, booked, -2)),
+            // value dates lie up to two days before and up to two days after the booking date
+            _ => { let off = r.below(3) as i64 - 2; Some(gen_date(r, booked, off)) }
         };
         let kind = r.below(10);
         if kind < 3 {
